@@ -118,7 +118,7 @@ func checkC16(c *core.Ctx) {
 
 	// ---- many built-ins in one document, in shuffled orders with repetitions (one process resolves siblings
 	// of the same parent one after the other)
-	c.Stream("sequence", c.N(60, 1000), func(i int, r *rand.Rand) {
+	c.Stream("sequence", c.N(150, 2000), func(i int, r *rand.Rand) {
 		var p model.Piece
 		n := 20 + r.Intn(60)
 		var recent []string
@@ -307,8 +307,8 @@ func checkC16(c *core.Ctx) {
 	})
 
 	// ---- user dictionaries
-	c.Stream("forest", c.N(300, 5000), func(i int, r *rand.Rand) { userForestCase(c, i, r) })
-	c.Stream("broken", c.N(240, 3000), func(i int, r *rand.Rand) { brokenDictCase(c, i, r) })
+	c.Stream("forest", c.N(600, 6000), func(i int, r *rand.Rand) { userForestCase(c, i, r) })
+	c.Stream("broken", c.N(600, 6000), func(i int, r *rand.Rand) { brokenDictCase(c, i, r) })
 }
 
 func asList(v any) []any {
